@@ -976,7 +976,8 @@ def _instancecheck_callable(value: Optional[Callable], type_: Any, _, context: D
     elif base == typing.Coroutine:
         arg = get_type_arguments(ret_type)[2]
     else:
-        return False
+        # calling a coroutine function yields a coroutine object: besides Awaitable / Coroutine only a top type describes it
+        return _get_class_of_type_annotation(annotation=ret_type) is object
 
     return _is_subtype(sub_type=sig.return_annotation, super_type=arg)
 
